@@ -65,6 +65,9 @@ func implC19(line string) string {
 		return implTrace(limit, unhx(f[2]), unhx(strings.SplitN(f[3], "/", 2)[0]))
 	case "emsg":
 		return implEmsg(f[1:])
+	case "rebind":
+		v, _ := strconv.Atoi(f[3])
+		return implRebind(f[1], f[2], v)
 	case "sidefx":
 		return implSideFx(f[1], f[2])
 	case "life":
@@ -522,6 +525,49 @@ func implSideFx(site, mode string) string {
 		return "run-error:" + hx(err.Error())
 	}
 	return v.String()
+}
+
+// the native error class each kind belongs to (the global name a script can rebind)
+var kindClass = map[string]string{"unresolvable": "ReferenceError", "callNonFn": "TypeError", "newNonFn": "TypeError", "memberUndefined": "TypeError",
+	"memberNull": "TypeError", "arrayLenCtor": "RangeError", "arrayLenSet": "RangeError", "radix": "RangeError", "fixedPrecision": "RangeError",
+	"expPrecision": "RangeError", "precPrecision": "RangeError", "evalSyntax": "SyntaxError", "functionSyntax": "SyntaxError",
+	"instanceofNonObj": "TypeError", "inNonObj": "TypeError", "cyclicJSON": "TypeError", "uriMalformed": "URIError", "frozenWrite": "TypeError"}
+
+// implRebind: the history "rebind / delete the global name of the class, THEN let the engine raise it, THEN inspect
+// the caught error against the constructor and prototype saved beforehand".
+func implRebind(kind, how string, v int) string {
+	cls := kindClass[kind]
+	cs := clsConstructs[kind]
+	if cls == "" || len(cs) == 0 {
+		return "bad-op"
+	}
+	construct := cs[v%len(cs)]
+	var change string
+	switch how {
+	case "none":
+		change = ""
+	case "fn":
+		change = cls + " = function (m) { this.fake = m; };"
+	case "nonfn":
+		change = cls + " = 42;"
+	case "del":
+		change = "delete this." + cls + ";"
+	default:
+		return "bad-op"
+	}
+	src := "var Saved9 = " + cls + ", SavedProto9 = " + cls + ".prototype, SavedError9 = Error; " + change +
+		" var r9 = 'no-throw'; try { " + construct + " } catch (e) {" +
+		" var inst = []; if (e instanceof Saved9) { inst.push(" + jsStr(cls) + "); } if (e instanceof SavedError9) { inst.push('Error'); }" +
+		" r9 = String(e.name) + ',' + inst.join('+');" +
+		" if (Object.getPrototypeOf(e) !== SavedProto9) { r9 += ',proto-is-not-the-original'; }" +
+		" if (e.constructor !== Saved9) { r9 += ',constructor-is-not-the-original'; }" +
+		" if (String(e) !== (e.message ? " + jsStr(cls) + " + ': ' + e.message : " + jsStr(cls) + ")) { r9 += ',string-lost-the-class'; }" +
+		" } r9"
+	val, err := otto.New().Run(src)
+	if err != nil {
+		return "run-error:" + hx(err.Error())
+	}
+	return strings.ReplaceAll(val.String(), " ", "_")
 }
 
 // implCLimit: trace limit tl ("d" = leave the default), stack-depth limit sl (0 = leave unset) configured on a fresh
